@@ -6,7 +6,7 @@ FRAGMENT = {
  'quick': {'runs': 120000, 'budget_s': 28, 'workers': 16},
  'thorough': {'runs': 4000000, 'budget_s': 600, 'workers': 16, 'det_sample': 200},
  'level_text': 'seeded exploration of cache operation histories (two parties: a client issuing the history, a holder keeping page references across it; '
-               'memory limit set between one page and 1 GiB so that eviction runs) plus a bounded-exhaustive prefix, against a reference map with a '
+               'memory limit set between one page and 1 GiB so that eviction runs; one random run in five is an exactly-full flavour: plain pages, a limit of exactly 1-3 of them, two page numbers that may share a hash chain, many wildcard look-ups) plus a bounded-exhaustive prefix, against a reference map with a '
                'structural audit of the real lists, counters and memory accounting after every call; real cache.c (CACHE_CONSISTENCY=1) and the '
                'channel-switch path of vbi.c under ASan+UBSan; sampling beyond the prefix, not proof',
  'level_note': 'trusted: the reference map and subpage-key rules (written from the statement and EN 300 706 A.1), the list walker, the allocation tracker, '
